@@ -144,6 +144,7 @@ pub fn generate(out: &mut Out, rng: &Prng, thorough: bool, workdir: &std::path::
             slave_only_now: false,
             bmca_since_slave_only: false,
             frames: Default::default(),
+            view: Default::default(),
             meas: super::gen_inst::MeasOracle::default(),
             ex: InstExec::new(),
             out: &mut base_sink,
